@@ -403,4 +403,10 @@ def rule_d(ctx):
             'an error reply does not use the stream id of the frame being handled')
 
 
-RULES = [('C16.a', rule_a), ('C16.b', rule_b), ('C16.c', rule_c), ('C16.d', rule_d)]
+def rule_plumbing(ctx):
+    """SETUP is first: the head insertion really puts the frame first and keeps what was queued before."""
+    from . import plumbing
+    plumbing.rule_priority_insert(ctx, 'C16.b')
+
+
+RULES = [('C16.a', rule_a), ('C16.b', rule_b), ('C16.c', rule_c), ('C16.d', rule_d), ('C16.b', rule_plumbing)]
